@@ -151,9 +151,11 @@ func (imports *Imports) UnmarshalYAML(value *yaml.Node) error {
 }
 
 type Version struct {
-	Label   string
-	Url     string
-	Package *PackageInfo
+	Label string
+	Url   string
+	// Package may point back to the importing package (a version labelling the package
+	// itself), so it must stay out of the reflective struct walk in updatePackageInfoFromArgs
+	Package *PackageInfo `yaml:"-"`
 }
 
 type Versions []*Version
